@@ -514,9 +514,22 @@ impl LinearModel {
         out.push_str(&format!(" obj: {}\n", objective));
 
         out.push_str("Subject To\n");
+        //generated labels must not collide with the names the user gave to other rows
+        let user_names: std::collections::HashSet<String> = self
+            .constraints
+            .iter()
+            .map(|c| c.name())
+            .filter(|name| !name.is_empty())
+            .collect();
         for (i, c) in self.constraints.iter().enumerate() {
             let name = if c.name().is_empty() {
-                format!("c{}", i + 1)
+                let mut candidate = format!("c{}", i + 1);
+                let mut suffix = 0;
+                while user_names.contains(&candidate) {
+                    suffix += 1;
+                    candidate = format!("c{}_{}", i + 1, suffix);
+                }
+                candidate
             } else {
                 c.name()
             };
